@@ -413,6 +413,36 @@ def r04_8(prog: Program, rep: Report, pe, urows):
         rep.check(ok and numeric_paths > 0, "R04.8", f"{r.pred_name}->{r.routine.name}", f.loc, f"{cls}: numbers are read through fromtimestamp(x, UTC) unaltered ({numeric_paths} numeric paths)", f"{cls}: {why or 'no numeric path found'}", detail="epoch")
 
 
+def r04_11(prog: Program, rep: Report):
+    """Reader/writer pairing for the temporal text: times and datetimes are *written* with the stdlib isoformat(); a reader
+    that starts with a parser which is not its inverse loses what that parser does not understand.  The exact inverse
+    (`<class>.fromisoformat`) must be attempted before any parser listed in oracle.LOSSY_PARSERS."""
+    f = prog.function(f"{C.SERDES}.dateparse")
+    lossy_first = []
+    exact_seen = False
+    tparam = ("param", f.params[1]) if len(f.params) > 1 else None
+    for p in P.paths_of(prog, f):
+        # targets other than time / datetime (dates, durations) are written without an offset: exempt
+        other_target = any((not pol) and T.is_call_to(g, "builtins.issubclass") and g[2][:1] == (tparam,) and {"datetime.datetime", "datetime.time"} <= {T.refname(y) for y in (P.flatten_display(prog, g[2][1]) or [g[2][1]])} for g, pol in p.guards())
+        if other_target:
+            continue
+        order = []
+        for tm in p.all_terms():
+            for x in T.walk(tm):
+                if x[0] == "call":
+                    rn = T.refname(x[1])
+                    if rn in oracle.LOSSY_PARSERS:
+                        order.append(("lossy", rn))
+                    if (rn or "").endswith(".fromisoformat") or (x[1][0] == "attr" and x[1][2] == "fromisoformat"):
+                        order.append(("exact", rn or "fromisoformat"))
+        kinds = [k for k, _ in order]
+        if "exact" in kinds:
+            exact_seen = True
+        if "lossy" in kinds and ("exact" not in kinds or kinds.index("lossy") < kinds.index("exact")):
+            lossy_first.append(order[kinds.index("lossy")][1])
+    rep.check(exact_seen and not lossy_first, "R04.11", f.qualname, f.loc, "the text of a time / datetime is first read with the inverse of its writer (fromisoformat)", f"dateparse hands the text straight to {sorted(set(lossy_first))[:1]}, which {oracle.LOSSY_PARSERS.get(lossy_first[0], '') if lossy_first else ''}: time(1, 2, 3, tzinfo=+05:30) is written '01:02:03+05:30' and read back at UTC; an offset with seconds ('+00:09:21', what zoneinfo gives for 1900) is rejected", detail="inverse-first")
+
+
 def r04_9(prog: Program, rep: Report):
     """unixtime(): durations -> total_seconds(); times -> today in the value's own zone with all four clock fields;
     parser normalisation tests the narrower class first (datetime before date)."""
@@ -495,6 +525,8 @@ def r04_10(prog: Program, rep: Report, rule="R04.10"):
 
 def run(prog: Program, rep: Report, tier: str):
     rep.rule("R04.10", "no memoised renderer of coarse-equality values in serdes; memoryview decoded from its own bytes", floor=2)
+    rep.rule("R04.11", "the reader of temporal text starts with the inverse of the writer", floor=1)
+    r04_11(prog, rep)
     rep.rule("R04.9", "unixtime and parser-normalisation contracts", floor=3)
     rep.rule("R04.8", "numbers for date/datetime/time go through fromtimestamp(x, UTC) unaltered", floor=3)
     rep.rule("R04.6", "canonical text reaches the target constructor before the lossy loader", floor=3)
